@@ -34,8 +34,21 @@
    the MIDs of BOTH outboxes.  Per run the same statement is judged on real sessions: every cut
    position of every recorded exchange in both directions, storage errors at chosen messages
    (also inside the real directory mailbox), histories of faulty sessions followed by a clean
-   one (convergence is not a theorem). *)
-From Verif Require Import Base.Bytes B2F.Secure B2F.Side B2F.SideP B2F.CutP B2F.PairDefs B2F.PairHs B2F.PairP.
+   one.
+   CONVERGENCE (B2F/ConvergeP.v): the mailboxes carried into the next session are modelled as
+   the directory mailbox behaves (next_cfg: SetSent moves an entry out of the outbox, a stored
+   MID is answered with reject, the storage fault is gone).  C02_convergence: after ANY faulty
+   session (any cut in either direction, any failing store) every complete next session of
+   the two sides ends with nil on both and treats each entry of either original outbox as
+   `resumed` prescribes: nothing more for what was reported sent; SetSent(true) and no second
+   Process for what the peer had stored without the owner being told; otherwise exactly one
+   SetSent(false) + exactly one Process of the entry's own message (accept), one SetSent(true)
+   (reject), one SetDeferred and the entry kept (defer).  C02_next_session: the same for a
+   next session after ARBITRARY outcomes, and a complete next session exists -- so it applies
+   after any number of faulty sessions.  Not yet unconditional: that what the peer stored in
+   the CUT session under one of the owner's MIDs is the owner's message when the owner was not
+   told (conv_delivered takes it as the hypothesis genuine_session; it is decided per run). *)
+From Verif Require Import Base.Bytes B2F.Secure B2F.Side B2F.SideP B2F.CutP B2F.PairDefs B2F.PairHs B2F.PairP B2F.DeliverP B2F.ConvergeP.
 Open Scope N_scope.
 
 (* TWO-PARTY SAFETY *)
@@ -124,3 +137,39 @@ Theorem C02_intact : forall cfg (stream : bytes) (k : nat) mid data,
   exists cdata s p s', read_compressed s p = ROk (cdata, s') /\ proposal_message cdata = MOk mid data.
 Proof. intros cfg stream k. apply exchange_integrity. Qed.
 Print Assumptions C02_intact.
+
+(* CONVERGENCE: a faulty session (cut after k bytes towards b, a having received in_a; b's stores
+   may fail) followed by any complete session of the mailboxes carried over *)
+Theorem C02_convergence : forall (a b : side_cfg) (in_a : bytes) (k : nat) (in_a' in_b' : bytes),
+  c_master a = negb (c_master b) ->
+  hs_compat (if c_master a then a else b) (if c_master a then b else a) ->
+  side_sound a -> side_sound b ->
+  let oa := exchange a in_a in let ob := exchange b (firstn k (x_wire oa)) in
+  in_a = firstn (length in_a) (x_wire ob) ->
+  let a' := next_cfg a oa in let b' := next_cfg b ob in
+  closed a' b' in_a' in_b' ->
+  let oa' := exchange a' in_a' in let ob' := exchange b' in_b' in
+  x_res oa' = XNil /\ x_res ob' = XNil /\
+  (forall p, In p (h_outbox (c_handler a)) -> conv_entry a b oa ob oa' ob' p) /\
+  (forall p, In p (h_outbox (c_handler b)) -> conv_entry b a ob oa ob' oa' p).
+Proof. exact convergence. Qed.
+Print Assumptions C02_convergence.
+
+(* the next session after ARBITRARY earlier outcomes: one exists, and every one resumes *)
+Theorem C02_next_session : forall (x y : side_cfg) (ox oy : outcome),
+  c_master x = negb (c_master y) -> hs_compat (if c_master x then x else y) (if c_master x then y else x) ->
+  side_sound x -> side_sound y ->
+  let x' := next_cfg x ox in let y' := next_cfg y oy in
+  (exists in_x' in_y', closed x' y' in_x' in_y') /\
+  (forall in_x' in_y', closed x' y' in_x' in_y' ->
+     let ox' := exchange x' in_x' in let oy' := exchange y' in_y' in
+     x_res ox' = XNil /\ x_res oy' = XNil /\
+     (forall p, In p (h_outbox (c_handler x)) -> resumed x y ox oy ox' oy' p) /\
+     (forall p, In p (h_outbox (c_handler y)) -> resumed y x oy ox oy' ox' p)).
+Proof. exact next_session_resumes. Qed.
+Print Assumptions C02_next_session.
+
+(* computed instances (tests of the statement): a cut inside a transfer, a cut between the last
+   EOT and the next command, a cut in the second transfer, a storage error *)
+Example C02_convergence_instances := (converge_cut_in_transfer, converge_cut_before_next_command,
+                                      converge_cut_in_second_transfer, converge_after_storage_error).
